@@ -51,6 +51,8 @@ fn build(args: BuildArgs) -> anyhow::Result<Option<usize>> {
     // Attempt to rebuild build.ninja.
     let build_file_target = work.lookup(&build_filename);
     if let Some(target) = build_file_target {
+        #[cfg(n2_verif)]
+        crate::verif::trace(|| "regen_begin".to_string());
         work.want_file(target)?;
         if !trace::scope("work.run", || work.run())? {
             return Ok(None);
@@ -62,6 +64,8 @@ fn build(args: BuildArgs) -> anyhow::Result<Option<usize>> {
             // verify the specific FileId was updated.
         } else {
             // Regenerated build.ninja; start over.
+            #[cfg(n2_verif)]
+            crate::verif::trace(|| "reload".to_string());
             tasks_run = work.tasks_run;
             state = trace::scope("load::read", || load::read(&build_filename))?;
             work = work::Work::new(
@@ -75,6 +79,8 @@ fn build(args: BuildArgs) -> anyhow::Result<Option<usize>> {
         }
     }
 
+    #[cfg(n2_verif)]
+    crate::verif::trace(|| "main_begin".to_string());
     if !args.targets.is_empty() {
         for name in &args.targets {
             let Some(target) = work.lookup(name) else {
